@@ -1212,7 +1212,7 @@ def array_to_groups_and_locations(
                 return_inverse=True,
                 axis=unique_axis)
         # groups here are the strings; need to restore to values
-        groups = array[group_index]
+        groups = array[:, group_index] if unique_axis == 1 else array[group_index]
 
     return groups, locations
 
